@@ -4,6 +4,7 @@ import (
 	"archive/zip"
 	"bytes"
 	"compress/flate"
+	"encoding/binary"
 	stdjson "encoding/json"
 	"fmt"
 	"hash/crc32"
@@ -64,8 +65,25 @@ var c19APKMarkers = []string{"AndroidManifest.xml", "META-INF/com/android/build/
 func c19Build(es []c19Entry) ([]byte, error) {
 	var buf bytes.Buffer
 	w := zip.NewWriter(&buf)
+	var zip64At []int // offsets of local headers to be rewritten in ZIP64 form
 	for _, e := range es {
 		switch e.Mode {
+		case 6:
+			// stored, sizes known, local header in ZIP64 form (what CPython's zipfile writes with
+			// force_zip64): 32-bit size fields 0xFFFFFFFF, real sizes in the extra field 0x0001
+			w.Flush()
+			zip64At = append(zip64At, buf.Len())
+			ex := make([]byte, 20)
+			binary.LittleEndian.PutUint16(ex[0:], 1)
+			binary.LittleEndian.PutUint16(ex[2:], 16)
+			binary.LittleEndian.PutUint64(ex[4:], uint64(len(e.Body)))
+			binary.LittleEndian.PutUint64(ex[12:], uint64(len(e.Body)))
+			fh := &zip.FileHeader{Name: e.Name, Method: zip.Store, CRC32: crc32.ChecksumIEEE(e.Body), CompressedSize64: uint64(len(e.Body)), UncompressedSize64: uint64(len(e.Body)), Extra: ex}
+			f, err := w.CreateRaw(fh)
+			if err != nil {
+				return nil, err
+			}
+			f.Write(e.Body)
 		case 0:
 			f, err := w.Create(e.Name)
 			if err != nil {
@@ -115,7 +133,13 @@ func c19Build(es []c19Entry) ([]byte, error) {
 	if err := w.Close(); err != nil {
 		return nil, err
 	}
-	return buf.Bytes(), nil
+	out := buf.Bytes()
+	for _, off := range zip64At {
+		if off+30 <= len(out) && string(out[off:off+4]) == "PK\x03\x04" {
+			copy(out[off+18:off+26], []byte{0xFF, 0xFF, 0xFF, 0xFF, 0xFF, 0xFF, 0xFF, 0xFF})
+		}
+	}
+	return out, nil
 }
 
 type c19Want struct {
@@ -337,6 +361,15 @@ func c19Body(r *rand.Rand, aliasing bool, name string) []byte {
 		rest := []string{"l/workbook.xml", "ord/document.xml", "pt/presentation.xml", "/a", "d/x", "ETA-INF/MANIFEST.MF", "t/x"}
 		return []byte(rest[r.Intn(len(rest))] + "<x/>")
 	}
+	if r.Intn(10) == 0 {
+		// body ENDS with a literal of the tree's source (markers that a detector looks for in front
+		// of the central directory or of the next header)
+		if d := lib.SourceDictionary(); len(d) > 0 {
+			if t := d[r.Intn(len(d))]; len(t) > 0 && len(t) <= 40 && !bytes.Contains(t, []byte("PK")) {
+				return append([]byte("body that ends with a marker: "), t...)
+			}
+		}
+	}
 	if r.Intn(8) == 0 {
 		// body begins where an extra field would begin: extra-field ids (0xCAFE = the JDK's jar
 		// magic, 0x5455, 0x000a, 0x7875, 0x0001), small lengths, or a literal of the tree's source
@@ -388,6 +421,9 @@ func c19Mode(r *rand.Rand, name string) int {
 	if strings.HasSuffix(name, "/") {
 		return 5
 	}
+	if r.Intn(12) == 0 {
+		return 6
+	}
 	return r.Intn(5)
 }
 
@@ -398,6 +434,17 @@ func c19Special(c *fw.Ctx) {
 	big := make([]byte, 1100*1024)
 	for i := range big {
 		big[i] = byte(r.Intn(256))
+	}
+	if c.Tier == "thorough" || c.Rand.Intn(2) == 0 {
+		// one part of more than 16 MiB in front of the marker
+		huge := make([]byte, 17<<20)
+		for i := range huge {
+			huge[i] = byte(i * 7)
+		}
+		for _, mode := range []int{1, 2} {
+			es := []c19Entry{{Name: "[Content_Types].xml", Mode: 0, Body: []byte("<Types/>")}, {Name: "customXml/item1.xml", Mode: mode, Body: huge}, {Name: "word/document.xml", Mode: 0, Body: []byte("<x/>")}}
+			c19Judge(c, es, "huge-part")
+		}
 	}
 	for _, mode := range []int{0, 1, 2} {
 		for _, mk := range []string{"word/document.xml", "xl/workbook.xml", "ppt/presentation.xml"} {
@@ -547,7 +594,7 @@ func init() {
 	fw.Register(&fw.Prop{
 		ID:    "C19",
 		Level: "exploration",
-		Rule: "archives are written with archive/zip from generated entry lists: OOXML-like packages ([Content_Types].xml first, bookkeeping parts _rels / docProps / customXml / [trash] in any combination incl. directory entries, one marker part word/ xl/ ppt/ at positions 2-10, sometimes further markers, near-miss names words/ Word/ xl.xml pptx/, every marker in other letter cases (meta-inf/manifest.mf, androidmanifest.xml, CLASSES.DEX, WORD/ …) and proper prefixes x xl wor word pp M, unrelated names of 1-60 characters), JARs, APK-like, ODF/EPUB with a stored 'mimetype' first entry (exact and near-miss contents), unrelated-only archives; every entry is written in one of 6 ways (Create = deflate + data descriptor; store + descriptor; CreateRaw store with sizes; CreateRaw deflate with sizes; deflate + descriptor + extended-timestamp extra field; directory entry); bodies empty / one byte / XML-like / random / large / beginning with extra-field ids (0xCAFE, 0x5455, …) or literals of the tree's source; an 'aliasing' family puts the remainder of a marker at the start of a body that follows a proper-prefix name. A few packages carry a part of more than 1 MiB in front of the marker, and pairs of equal-length archives are detected one after the other in the same buffer. Archives whose bytes contain PK\\x03\\x04 other than at entry headers are dropped. The entry list is read back with zip.Reader and decides P1 P2 P3 N1 N2 and the application/zip parent; limit 0. " +
+		Rule: "archives are written with archive/zip from generated entry lists: OOXML-like packages ([Content_Types].xml first, bookkeeping parts _rels / docProps / customXml / [trash] in any combination incl. directory entries, one marker part word/ xl/ ppt/ at positions 2-10, sometimes further markers, near-miss names words/ Word/ xl.xml pptx/, every marker in other letter cases (meta-inf/manifest.mf, androidmanifest.xml, CLASSES.DEX, WORD/ …) and proper prefixes x xl wor word pp M, unrelated names of 1-60 characters), JARs, APK-like, ODF/EPUB with a stored 'mimetype' first entry (exact and near-miss contents), unrelated-only archives; every entry is written in one of 7 ways (stored with a ZIP64-form local header as CPython's force_zip64 writes it; Create = deflate + data descriptor; store + descriptor; CreateRaw store with sizes; CreateRaw deflate with sizes; deflate + descriptor + extended-timestamp extra field; directory entry); bodies empty / one byte / XML-like / random / large / beginning with extra-field ids (0xCAFE, 0x5455, …) or literals of the tree's source; an 'aliasing' family puts the remainder of a marker at the start of a body that follows a proper-prefix name. A few packages carry a part of more than 1 MiB in front of the marker, and pairs of equal-length archives are detected one after the other in the same buffer. Archives whose bytes contain PK\\x03\\x04 other than at entry headers are dropped. The entry list is read back with zip.Reader and decides P1 P2 P3 N1 N2 and the application/zip parent; limit 0. " +
 			"non-trivial = an archive with a claim (P1/P2/P3/N2) and more than one entry; distinct = distinct (family, claim, verdict, set of writer modes used, position of the first marker, entry count).",
 		Assumptions: []string{
 			"archive/zip is the standard writer and reader",
